@@ -2,18 +2,20 @@
 
 use crate::gen::{self, Fam, Profile};
 use crate::monitors::{Monitor, Which};
-use crate::oracle::{Converge, HistMode, History, Oracle, RestartOracle};
+use crate::oracle::{Converge, CorruptImportOracle, HistMode, History, Oracle, RestartOracle, XlsxRoundTrip};
 use crate::rng::Rng;
 use crate::run::{Plan, Sched, Special};
 use crate::world::{Init, InitialWb};
 
-pub const CLAIMED: [&str; 8] = ["C01", "C02", "C03", "C04", "C08", "C26", "C27", "C28"];
+pub const CLAIMED: [&str; 10] = ["C01", "C02", "C03", "C04", "C08", "C24", "C25", "C26", "C27", "C28"];
 
 pub fn runs_for(prop: &str, tier: &str) -> u64 {
     let (q, t) = match prop {
         "C01" | "C02" => (40_000, 1_500_000),
         "C03" => (30_000, 1_000_000),
         "C26" | "C27" | "C28" | "C08" => (40_000, 1_500_000),
+        "C24" => (15_000, 400_000),
+        "C25" => (20_000, 1_000_000),
         "C04" => (40_000, 1_000_000),
         _ => (10_000, 200_000),
     };
@@ -90,6 +92,7 @@ fn base_profile(rng: &mut Rng, guards: bool) -> Profile {
         p_formula: *rng.pick(&[0.2, 0.4, 0.6]),
         overflow: false,
         guards,
+        hostile: false,
     }
 }
 
@@ -133,7 +136,18 @@ pub fn plan(prop: &str, rng: &mut Rng, hash_key: u64) -> Plan {
             profile.p_redo = 0.12;
             sched.p_bad = *rng.pick(&[0.0, 0.1]);
         }
+        "C24" => {
+            sched.p_probe = 0.12;
+            profile.len = rng.range(3, 25) as usize;
+            profile.p_undo = 0.08;
+            profile.hostile = rng.chance(0.5);
+        }
+        "C25" => {
+            sched.p_probe = 0.5;
+            profile.len = rng.range(2, 16) as usize;
+        }
         "C08" => {
+            sched.p_probe = 0.04;
             profile.dynamic = true;
             profile.p_formula = 0.7;
             profile.overflow = true;
@@ -162,6 +176,8 @@ pub fn oracle_for(prop: &str) -> Box<dyn Oracle> {
         "C27" => Box::new(Monitor::new(Which::Wellformed)),
         "C28" => Box::new(Monitor::new(Which::Selection)),
         "C08" => Box::new(Monitor::new(Which::NonFinite)),
+        "C24" => Box::new(XlsxRoundTrip::new()),
+        "C25" => Box::new(CorruptImportOracle::new()),
         _ => Box::new(History::new(HistMode::Undo)),
     }
 }
@@ -169,7 +185,61 @@ pub fn oracle_for(prop: &str) -> Box<dyn Oracle> {
 pub fn special_for(prop: &str) -> Option<Box<Special>> {
     match prop {
         "C04" | "C27" | "C28" => Some(Box::new(|rng, w, p| crate::bad::bad_op(rng, w, p))),
+        "C24" => Some(Box::new(|rng, w, _p| {
+            let plan = if rng.chance(0.7) {
+                crate::xlsxfault::WritePlan::default()
+            } else {
+                // the export of these small workbooks is 8-15 kB
+                let approx = crate::world::export_xlsx(w.primary.model()).map(|b| b.len() as u64).unwrap_or(10_000);
+                crate::xlsxfault::draw_write_plan(rng, approx)
+            };
+            let label = if plan.is_none() { None } else { Some(format!("write-fault:{}", write_plan_kind(&plan))) };
+            Some((crate::ev::Ev::XlsxExportImport { plan }, label))
+        })),
+        "C25" => {
+            let fixtures = crate::world::fixtures();
+            Some(Box::new(move |rng, w, _p| {
+                let fixture = if !fixtures.is_empty() && rng.chance(0.5) { Some(rng.pick(&fixtures).clone()) } else { None };
+                let base = match &fixture {
+                    Some(f) => std::fs::read(format!("{}/{}", crate::world::fixtures_dir(), f)).ok()?,
+                    None => crate::world::export_xlsx(w.primary.model()).ok()?,
+                };
+                let corrupt = crate::xlsxfault::draw(rng, &base);
+                let read = if rng.chance(0.15) { Some(crate::xlsxfault::draw_read_plan(rng, base.len() as u64)) } else { None };
+                let label = format!("storage-fault:{}{}", crate::oracle::corrupt_kind(&corrupt), if read.is_some() { "+reader-fault" } else { "" });
+                Some((crate::ev::Ev::CorruptImport { fixture, corrupt, read }, Some(label)))
+            }))
+        }
+        "C08" => Some(Box::new(|rng, w, _p| {
+            // numbers read from files: forge the payload of <v> elements
+            let base = crate::world::export_xlsx(w.primary.model()).ok()?;
+            let entries = crate::xlsxfault::read_entries(&base).ok()?;
+            let sheets: Vec<&String> = entries.iter().map(|e| &e.0).filter(|n| n.contains("worksheets/sheet")).collect();
+            if sheets.is_empty() {
+                return None;
+            }
+            let entry = (*rng.pick(&sheets)).clone();
+            let value = rng.pick(&["1e999", "-1e999", "NaN", "inf", "-inf", "INF", "Infinity", "1e400", "9".repeat(400).as_str()]).to_string();
+            let corrupt = crate::xlsxfault::Corrupt::SetText { entry, name: "v".into(), value, first: rng.chance(0.5) };
+            Some((crate::ev::Ev::CorruptImport { fixture: None, corrupt, read: None }, Some("file-number-forged".into())))
+        })),
         _ => None,
+    }
+}
+
+fn write_plan_kind(p: &crate::xlsxfault::WritePlan) -> &'static str {
+    if p.fail_at_byte.is_some() {
+        "hard-error-at-byte"
+    } else if p.fail_seek_at.is_some() {
+        "seek-error"
+    } else if p.fail_flush {
+        "flush-error"
+    } else if p.short.is_some() && p.interrupt_every.is_some() {
+        "short+interrupted"
+    } else if p.short.is_some() {
+        "short-writes"
+    } else {
+        "interrupted"
     }
 }
 
@@ -177,6 +247,8 @@ pub fn rule_for(prop: &str) -> String {
     match prop {
         "C01" => "seeded histories of user-model operations (swarm-selected families, 3-40 events, undo 15%/redo 8%) on one editing session; a case is non-trivial iff at least one undo of a recorded operation was compared against the history-cursor model; distinct = distinct (event-kind sequence hash, final snapshot hash)".into(),
         "C02" => "as C01 with undo 25%/redo 20%; non-trivial iff at least one redo of an undone operation was compared against the cursor model".into(),
+        "C24" => "histories of 3-25 operations (all families: styles, names, links, conditional formats, arrays, hidden rows/columns, panes...) with, at 12% of the steps, an export of the current workbook through the simulated disk followed by an import of what was written: 70% fault-free (snapshot restricted to the facets the statement lists must be equal), 30% under a drawn write-fault plan (short writes, Interrupted, hard error at byte k, failing seek, failing flush: the call must return Err, or Ok with a file that imports to an equal workbook); non-trivial iff at least one export happened on an evaluated state".into(),
+        "C25" => "valid packages (the simulator's own export of a history-reached state, or one of the ~240 fixtures under xlsx/tests) pass through one drawn storage fault - truncation, zero-filled block, bit flips, dropped/duplicated/emptied/swapped zip entries, truncated XML, dropped element, dropped/garbled attribute, forged text payload, deep nesting, garbage - and, in 15% of the cases, through a reader that injects short reads, Interrupted, EIO or early EOF (hook H2); the import (plus Model::from_workbook and evaluate when it returns a workbook) must return; a panic is the violation, a hang or abort is reported through the watchdog; non-trivial iff a damaged package was imported".into(),
         "C26" => "C01 histories with Save (6%), clean Restart (8%: to_bytes -> from_bytes -> evaluate, new incarnation with another hash seed, history lost) and dirty Restart (4%: crash, load the last saved bytes); the run continues on the restarted node; non-trivial iff a decode/encode workbook equality, a clean-restart or a dirty-restart snapshot comparison was made on an evaluated state".into(),
         "C27" => "C01+C04 mix (invalid calls 0-30%), 0-1 follower fed by the queue, clean restarts 3%, evaluation paused in some runs; the well-formedness scan runs on every live node after every event; non-trivial iff the run contains at least one event that can change structure (operation, undo/redo, delivery, restart)".into(),
         "C28" => "sheet new/delete/duplicate/move/hide/unhide at every index relative to the selected one, selection and navigation events, hide rows/columns, undo/redo, some invalid calls; the selection scan (raw workbook.views / worksheet.views) runs after every event; non-trivial iff the run contains at least one sheet/selection/navigation/undo/redo event".into(),
